@@ -15,7 +15,7 @@ def disc(sc: dict, tr: dict, clause: str, pos: int) -> str:
     return 'plain'
 
 
-def run_traces(ctx: Ctx, own: str, scenarios: List[dict]) -> None:
+def run_traces(ctx: Ctx, own: str, scenarios: List[dict]) -> List[dict]:
     traces = trace_run.record_all('props.querierfam', 'Recorder', scenarios, 16 if ctx.thorough else 8)
     by_voc: Dict[int, List[dict]] = {}
     for t in traces:
@@ -60,12 +60,32 @@ def run_traces(ctx: Ctx, own: str, scenarios: List[dict]) -> None:
     cov.update(res)
     ctx.assumptions += ['virtual-time simulator (no timer lateness)', 'TTL >= 1125 s (floor) and delay <= 60 s as in the property',
                         'obligations counted for records whose 75 % point falls after the four start-up queries']
+    return traces
 
 
 def run(ctx: Ctx) -> None:
+    from props import schedmodel as sm
     rng = random.Random(ctx.seed * 7919 + 10)
     n = ctx.pick(300, 5000)
-    run_traces(ctx, OWN, [qf.gen_c10(rng, 'c10-%d' % k, ctx.thorough) for k in range(n)])
+    scenarios = [qf.gen_c10(rng, 'c10-%d' % k, ctx.thorough) for k in range(n)]
+    # binding 1: the implementation-shaped scheduler model against the contract, exhaustively
+    info = sm.check_models(ctx)
+    ctx.log('Sched model: %d distinct states, depth %s, contract invariants hold; defect configuration violates %s'
+            % (info['model_distinct'], info['model_depth'], info['defect_config_violates']))
+    # binding 2: behaviours of the model replayed into the real scheduler (validated like every other scenario)
+    mscs, predicted = sm.model_scenarios(ctx)
+    traces = run_traces(ctx, OWN, scenarios + mscs)
+    d = sm.drift(traces, predicted)
+    for x in d[:5]:
+        print('MODEL-DRIFT property=C10 scenario=%s real query instants %s, model predicts %s (evidence, not a verdict: the '
+              'exhaustively checked model Sched.tla no longer describes the scheduler)' % (x['scenario'], x['real'], x['model']))
+    ctx.coverage.update(info)
+    ctx.coverage.update({'model_behaviours_replayed': len(mscs), 'model_drift': len(d),
+                         'model_drift_samples': d[:3],
+                         'model_constants': 'exhaustive: 2-3 aliases, TTL {1125,1200,4500} s, delay 10 s, 6-9 environment instants, '
+                                            'horizon 6000 s; replay: every environment history of 3 (quick) / 5 (thorough) instants '
+                                            'x 2 aliases x {1200, 4500, goodbye} plus random walks over 16 instants x 3 aliases x 4 TTLs'})
+    ctx.log('model behaviours replayed into the real scheduler: %d, drift: %d' % (len(mscs), len(d)))
 
 
 def replay(ctx: Ctx, path: str) -> None:
